@@ -112,6 +112,7 @@ FORCED = {  # witness inputs of the open findings, re-confirmed on every run thr
     2: {"nodes": ["10", "E_", "N2", "zz_"], "edges": [["10", "E_", "N2", "zz_"], ["10", "E_", "N2"], ["E_", "N2"], ["E_", "N2", "zz_"]], "weights": [1, 1, 1, 1], "weighted": False, "K": 4, "seed": 641609, "cfg": {"n_realizations": 1, "max_iter": 40, "min_value_par": 0.0, "max_value_par": 1e+300}, "normalizeU": False, "baseline": True},
     3: {"nodes": [-8589934592, -1, 3, 999, 1003], "edges": [[-8589934592, 3, 999], [-1, 3, 999], [-8589934592, -1, 999], [-8589934592, -1, 3, 999, 1003], [-1, 999], [-8589934592, -1, 3, 999], [-8589934592, 3, 999, 1003], [999, 1003]], "weights": [4, 3, 4, 1, 2, 3, 2, 4], "weighted": True, "K": 4, "seed": 53724, "cfg": {"n_realizations": 2, "max_iter": 40}, "normalizeU": False, "baseline": True},
     4: {"nodes": [0, 1, 6, 1003, 1006, 1007], "edges": [[0, 6, 1003, 1006, 1007], [0, 1003], [0, 6, 1003], [1003, 1006, 1007], [0, 1, 1003], [1, 6, 1003]], "weights": [1, 1, 1, 1, 1, 1], "weighted": False, "K": 4, "seed": 117698, "cfg": {"n_realizations": 3, "max_iter": 40}, "normalizeU": False, "baseline": True},
+    6: {"nodes": [-15, 2, 7, 1000, 1006], "edges": [[1000, 1006], [2, 7, 1000, 1006], [7, 1000], [1006], [2, 1006], [2, 1000], [2, 1000, 1006], [2, 7, 1000]], "weights": [2, 5, 3, 4, 4, 2, 2, 2], "weighted": True, "K": 4, "seed": 85911, "cfg": {"n_realizations": 2, "max_iter": 20, "min_value_par": 0.0, "max_value_par": 1e+300}, "normalizeU": False, "baseline": False},
     5: {"nodes": ["10", "10_", "E", "E_", "N2_", "a", "b", "b_", "zz_"], "edges": [["10", "zz_"], ["10", "b"], ["E", "a", "b", "b_", "zz_"], ["10", "N2_", "a", "b"], ["10_", "b_", "zz_"], ["E", "E_"], ["10", "10_", "N2_"]], "weights": [4, 4, 3, 1, 1, 2, 2], "weighted": True, "K": 4, "seed": 851359, "cfg": {"n_realizations": 1, "max_iter": 1, "min_value_par": 0.0, "max_value_par": 1e+300}, "normalizeU": True, "baseline": False},
 }
 
@@ -175,6 +176,20 @@ def run_case(ctx, rng, idx):
                 w_ = h.get_weight(old)
                 h.remove_edge(old)
                 h.add_edge(new, weight=w_ if h.is_weighted() else None)
+                if rng.random() < 0.5:
+                    # ... and one node leaves while another one (sorting elsewhere) arrives: same number of nodes, other node set
+                    lonely = [n for n in h.get_nodes() if not h.get_incident_edges(n)]
+                    cand = [x for x in (lonely or nodes)]
+                    gone = rng.choice(cand)
+                    newcomer = (min(nodes) - 17) if not isinstance(nodes[0], str) else "~" + str(gone)
+                    try:
+                        keep = h.copy()
+                        h.remove_node(gone, keep_edges=True)
+                        h.add_node(newcomer)
+                        if not any(len(e) >= 2 for e in h.get_edges()) or any(len(e) < 2 for e in h.get_edges()):
+                            h = keep  # (inputs with size-1 hyperedges are only run as the witness of the open finding)
+                    except Exception:
+                        h = keep
                 ctx.event("re-evaluated-after-in-place-edit")
                 evaluate(ctx, rng, idx, h, 1)
                 break
@@ -389,7 +404,11 @@ def evaluate(ctx, rng, idx, h, phase, force=None):
                 else:
                     mp = trace.get("minpos", {}).get(r_, [])
                     tiny = min(mp[max(0, t - 1): t + 1]) if mp[max(0, t - 1): t + 1] else 1.0
-                    if any(ev[:t]):
+                    if any(len(e) == 1 for e in edges):
+                        # a hyperedge with a single node: its affinity row is looked up at index size-2 = -1, i.e. the row of
+                        # the LARGEST size, while the polynomial bookkeeping starts at size 2
+                        mech = "C17:MT:loglik-decreased:input-has-a-size-1-hyperedge(affinity-row-index--1)"
+                    elif any(ev[:t]):
                         # a membership was forced to 0 / 100 earlier in this realisation: the trajectory is no
                         # longer an unconstrained EM trajectory, yet the step itself had no such event
                         mech = "C17:MT:loglik-decreased:after-earlier-truncation-or-clipping-in-the-realisation"
